@@ -1,6 +1,7 @@
 package engine
 
 import (
+	"os"
 	"fmt"
 	"go/types"
 	"strings"
@@ -27,9 +28,27 @@ type Heap struct {
 	vc    *VC
 	sorts map[string]string
 	order []string
+	refs  map[string]bool // keys whose cells hold references (pointers, maps, channels, slice bases)
+	closed map[string]bool
 }
 
-func newHeap(vc *VC) *Heap { return &Heap{vc: vc, sorts: map[string]string{}} }
+func newHeap(vc *VC) *Heap {
+	return &Heap{vc: vc, sorts: map[string]string{}, refs: map[string]bool{}, closed: map[string]bool{}}
+}
+
+func isRefType(t types.Type) bool {
+	switch under(t).(type) {
+	case *types.Pointer, *types.Map, *types.Chan:
+		return true
+	}
+	return false
+}
+
+func (h *Heap) noteRef(key string, lt types.Type) {
+	if isRefType(lt) {
+		h.refs[key] = true
+	}
+}
 
 func (h *Heap) declare(key, sort string) {
 	if old, ok := h.sorts[key]; ok {
@@ -85,8 +104,31 @@ func zeroOfSort(s string) string {
 }
 
 func (h *Heap) initial(key string) string {
-	return h.vc.Global("H0:"+key, h.sorts[key])
+	g := h.vc.Global("H0:"+key, h.sorts[key])
+	if h.refs[key] && !h.closed[key] && !h.vc.BV && !NoClosedHeap {
+		// the entry heap is closed: every reference stored in it is nil or allocated
+		h.closed[key] = true
+		a := h.vc.Global("H0:"+allocKey, "Int")
+		rng := func(t string) string { return And(app("<=", "0", t), app("<", t, a)) }
+		switch {
+		case strings.HasPrefix(key, "F:"):
+			h.vc.FactFor(g, "(forall ((o Int)) "+Implies(rng("o"), rng(Select(g, "o")))+")")
+		case strings.HasPrefix(key, "E:"):
+			h.vc.FactFor(g, "(forall ((o Int) (i Int)) "+Implies(rng("o"), rng(Select(Select(g, "o"), "i")))+")")
+		case strings.HasPrefix(key, "MV:"):
+			// (Array Int (Array K V)): take the key sort from the declared sort
+			srt := h.sorts[key]
+			inner := strings.TrimSuffix(strings.TrimPrefix(srt, "(Array Int (Array "), "))")
+			if k := strings.LastIndex(inner, " "); k > 0 {
+				h.vc.FactFor(g, "(forall ((o Int) (k "+inner[:k]+")) "+Implies(rng("o"), rng(Select(Select(g, "o"), "k")))+")")
+			}
+		}
+	}
+	return g
 }
+
+// NoClosedHeap switches the entry-heap closedness axiom off (debugging).
+var NoClosedHeap = os.Getenv("NRIVERIF_NOCLOSED") == "1"
 
 func (h *Heap) get(s *State, key, sort string) string {
 	h.declare(key, sort)
@@ -176,6 +218,12 @@ func (h *Heap) valAssume(s *State, v Val) string {
 // ---- object fields ----
 
 func (h *Heap) cellKeySort(p *Ptr, leafPath string, lt types.Type) (string, string) {
+	k, srt := h.cellKeySort0(p, leafPath, lt)
+	h.noteRef(k, lt)
+	return k, srt
+}
+
+func (h *Heap) cellKeySort0(p *Ptr, leafPath string, lt types.Type) (string, string) {
 	switch p.Kind {
 	case ptrObj:
 		return fieldKey(p.Root, joinPath(p.Path, leafPath)), h.arrSort(h.vc.sortOf(lt))
@@ -336,6 +384,7 @@ func (h *Heap) mapRaw(s *State, m Val, k string) Val {
 	mi := h.mapInfo(m.T)
 	return h.vc.buildVal(mi.m.Elem(), "", func(path string, lt types.Type) string {
 		sort := h.arrSort("(Array " + mi.ksort + " " + h.vc.sortOf(lt) + ")")
+		h.noteRef(mi.valKey(path), lt)
 		return Select(Select(h.get(s, mi.valKey(path), sort), m.S), k)
 	})
 }
